@@ -32,6 +32,16 @@ func verifyFunc(prog *Prog, fs *FuncSpec, mode Mode, opts SolveOpts) (res *FuncR
 		res.BindErr = true
 		return
 	}
+	if fs.Implements != "" {
+		ex, err := expandImplements(prog, fs, fi)
+		if err != nil {
+			res.ToolErr = "contract-does-not-bind: " + err.Error()
+			res.BindErr = true
+			return
+		}
+		fs = ex
+		res.Spec = ex
+	}
 	v := newV(prog, fi, fs, mode)
 	res.V = v
 	func() {
@@ -102,6 +112,9 @@ func cmdFunc(args []string) int {
 			continue
 		}
 		if *key != "" && fs.Key != *key {
+			continue
+		}
+		if !strings.HasSuffix(fs.PkgPath, strings.TrimSuffix(strings.TrimPrefix(*pkg, "."), "/...")) {
 			continue
 		}
 		for _, m := range modesOf(fs) {
@@ -186,3 +199,73 @@ func main() {
 }
 
 var _ = strings.Join
+
+// expandImplements: the function must satisfy the contract of an interface method; the clauses of
+// the interface contract are added to its own, with the interface contract's receiver/parameter
+// names renamed to the implementation's names.
+func expandImplements(prog *Prog, fs *FuncSpec, fi *FuncInfo) (*FuncSpec, error) {
+	var ifs *FuncSpec
+	for _, k := range prog.contracts.Order {
+		c := prog.contracts.Funcs[k]
+		if c.Kind == "iface" && (c.Key == fs.Implements || shortPkg(c.PkgPath)+"."+c.Key == fs.Implements || c.PkgPath+"."+c.Key == fs.Implements) {
+			ifs = c
+			break
+		}
+	}
+	if ifs == nil {
+		return nil, fmt.Errorf("interface contract %s not found", fs.Implements)
+	}
+	if len(ifs.Names) == 0 {
+		return nil, fmt.Errorf("interface contract %s must name its receiver and parameters: iface T.M(recv, a, b)", ifs.Key)
+	}
+	var impl []string
+	if fi.decl != nil && fi.decl.Recv != nil && len(fi.decl.Recv.List) > 0 && len(fi.decl.Recv.List[0].Names) > 0 {
+		impl = append(impl, fi.decl.Recv.List[0].Names[0].Name)
+	} else {
+		return nil, fmt.Errorf("%s has no named receiver", fs.Key)
+	}
+	for _, f := range fi.decl.Type.Params.List {
+		for _, n := range f.Names {
+			impl = append(impl, n.Name)
+		}
+	}
+	if len(impl) != len(ifs.Names) {
+		return nil, fmt.Errorf("%s: %d names in interface contract, %d in implementation", fs.Key, len(ifs.Names), len(impl))
+	}
+	alias := map[string]string{}
+	for i, n := range ifs.Names {
+		if n != impl[i] {
+			alias[n] = impl[i]
+		}
+	}
+	out := *fs
+	out.Requires = nil
+	out.Ensures = nil
+	for _, c := range ifs.Requires {
+		out.Requires = append(out.Requires, renameClause(c, alias))
+	}
+	out.Requires = append(out.Requires, fs.Requires...)
+	for _, c := range ifs.Ensures {
+		out.Ensures = append(out.Ensures, renameClause(c, alias))
+	}
+	out.Ensures = append(out.Ensures, fs.Ensures...)
+	for _, m := range ifs.Modifies {
+		suffix := ""
+		mm := m
+		if strings.HasSuffix(mm, "[*]") {
+			suffix = "[*]"
+			mm = strings.TrimSuffix(mm, "[*]")
+		}
+		if e, err := parseSpecExpr(mm); err == nil {
+			_ = e
+			out.Modifies = append(out.Modifies, renameClause(Clause{Src: mm}, alias).Src+suffix)
+		} else {
+			out.Modifies = append(out.Modifies, m)
+		}
+	}
+	out.Ghosts = append(append([]Param(nil), ifs.Ghosts...), fs.Ghosts...)
+	if out.Mode == "" {
+		out.Mode = ifs.Mode
+	}
+	return &out, nil
+}
